@@ -57,6 +57,12 @@ PROVED = {
          'forward and the reverse loop), C12_hidden_length, C12_wire_form, C12_unused_padding_inert; MD5 instances. The md5 crate itself is modelled by Base/Md5.v '
          '(RFC 1321 suite proved as Examples) and tied differentially (MD5 channel + a third computation with hashlib).'),
  'C13': ('Theorems C13_reveal_total (Val always; an Ok result has the announced attribute type and is not hidden), C13_rejects; MD5 instance. No Panic / UB for any octets, secret, random vector.'),
+ 'C18': ('Theorems C18_reader_refines_cursor (for every operation sequence, incl. nested sub-readers, whose preconditions hold the list reader returns the observations of the '
+         'reference cursor and ends at its position), C18_bytes_too_long, C18_writer_is_vector, C18_overwrite_keeps_length, C18_overwrite_refused. The correspondence drives the REAL '
+         'SliceReader / VecWriter with generated operation programs and compares with the model and with an independent Python reference.'),
+ 'C20': ('Theorems C20_fault_* (one per fault kind: version, unknown attribute type, vendor, unknown message type, error type, truncated payload, invalid UTF-8, offset), '
+         'C20_single_fault, C20_render_total, C20_name_matches_dispatch (avp_name agrees with the dispatch table for every number), C20_decoded_kind_name, C20_render_shows_name. '
+         'The rendered text is compared octet for octet for all 65536 numbers x 3 variants on every run.'),
 }
 for pid, txt in PROVED.items():
     META[pid] = P('proof', txt, 'DESIGN.md section 7 (%s)' % pid, PROOF_TECH, CORR)
